@@ -141,7 +141,7 @@ def eval_prog(ld, st):
                 viol('depth-chain', {'problem': 'callee %s has depth %r, not below the wrapper (%r)' % (label(c), d, depths.get(f))}, {})
             elif pr.route == 'kpartial':
                 pass        # wrapper -> partial object -> translated helper -> callee: C19's chain
-            elif pr.route == 'helper':
+            elif pr.route in ('helper', 'partial_helper'):
                 # wrapper (0) -> the shared helper (1) -> the callee it was handed (2)
                 dh = depths.get(ld.module.APPLY)
                 if dh != 1 or d != 2:
